@@ -51,6 +51,18 @@ CLAIMS = {
         "denotes the kernel it names.",
         "DESIGN.md section 3, C05",
     ),
+    "C10": (
+        "end-to-end identity on partially evaluated operators against the published TMC formulas built by the checker",
+        "Decides: for F2, FL, xF3, 2xg1 x TMC modes 1/2/3 x heavyness x NC/CC x schemes, the operator folded with TMC on equals for every order "
+        "key and entry the published combination (Schienbein et al. 2008; Accardi-Melnitchouk D.26 in the 2xg1 normalisation; APFEL = exact without "
+        "nested integrals; approximate = published closed forms) of the operators folded without TMC at the Nachtmann point and at the grid "
+        "nodes, the integrals being the opaque quadratures of the kernels whose folded closed form is z/xi, 1-z, z ln(1/z)/xi convolved with the "
+        "right structure function; xi, rho, mu and shifted kinematics equal their definitions; the result carries the requested x, Q2; integral "
+        "coefficients vanish and the F(xi) coefficient tends to 1 as M -> 0. NOT decided: quadrature accuracy (rejection guards: C16.kin).",
+        "Trusted: CPython ast; yadsa partial evaluator; the literature formulas written in rules/c10.py (not taken from the code); yadism's F3 "
+        "is xF3 and g1 is 2xg1 (C02.lo).",
+        "DESIGN.md section 3, C10",
+    ),
     "C11": (
         "normal-form comparison of folded coefficient vectors with the documented formulas; operator combination identity",
         "Decides: the coefficient vector folded from xs_coeffs_unpolarized/polarized equals, for all x, y, Q2, M_h, M_W, G_F, the documented "
